@@ -94,6 +94,10 @@ def callables(lib, promiscuous):
     return out
 
 
+TMPL_CLASSES, TMPL_FREE = hgen.template_classes()
+ALIAS = {a: c["qname"] for c, _ in TMPL_CLASSES for a in c["aliases"]}
+
+
 def modelcat(t, string):
     """what the database should say about a parameter of model type t (C calling convention)"""
     if t.kind == "prim":
@@ -126,7 +130,10 @@ def dbcat(T, ti, string):
                 return ("str",)               # char const *
             if u["atomic_token"] == 5:
                 return ("str",)
-            return ("ptr", u["scoped_name"].replace("std::basic_string< char >", "std::string"))
+            while u["flags"] & idbfmt.TF["typedef"] and u["wrapped_type"] in T:
+                u = T[u["wrapped_type"]]
+            n = u["scoped_name"].replace("std::basic_string< char >", "std::string")
+            return ("ptr", ALIAS.get(n, n))
         if f & idbfmt.TF["const"]:
             return dbcat(T, t["wrapped_type"], string)
     if f & idbfmt.TF["enum"]:
@@ -145,8 +152,9 @@ def find_wrapper(db, idx, call, k, backend, string):
     T, W = idx["types"], idx["wrappers"]
     want = [modelcat(p, string) for p in call["params"][:len(call["params"]) - k]]
     cands = []
+    names = call.get("fnames") or [call["fname"]]
     for f in db["functions"]:
-        if f["scoped_name"] != call["fname"]:
+        if f["scoped_name"] not in names:
             continue
         for wi in (f["c_wrappers"] if backend == "-c" else f["python_wrappers"]):
             w = W[wi]
@@ -161,8 +169,10 @@ def find_wrapper(db, idx, call, k, backend, string):
                 cands.append(w)
     if len(cands) == 1:
         return cands[0], None
-    if not any(f["scoped_name"] == call["fname"] for f in db["functions"]):
+    if not any(f["scoped_name"] in names for f in db["functions"]):
         return None, "not-exported"
+    if len(cands) > 1 and call.get("fnames"):
+        return cands[0], None           # an instantiation recorded under two spellings of the same class: either wrapper will do
     return None, ("no-matching-wrapper" if not cands else "ambiguous-wrappers")
 
 
@@ -321,8 +331,11 @@ def judge(case, ctx):
     lib = hgen.build(boost(case["raw"]), opts)
     classes = ["be." + be] + ["opt." + f for f in flags]
     cls_by_q = {c["qname"]: c for c in lib.classes}
+    for c_, _ in TMPL_CLASSES:
+        for a_ in c_["aliases"]:
+            cls_by_q[a_] = c_
     with run.Scratch("c01") as d:
-        bindgen.write_lib(d, lib)
+        bindgen.write_lib(d, lib, hgen.TEMPLATE_HEADER, hgen.TEMPLATE_IMPL)
         r = igate.interrogate(d, lib.cmd_headers, opts=[be] + flags, extra_search=lib.search)
         if r.signal or r.timed_out:
             return Outcome(ok=False, key="interrogate-died:%s" % r.kind(), classes=classes, detail="interrogate %s: %s" % (r.kind(), r.err[-400:].decode("latin-1")))
@@ -333,6 +346,12 @@ def judge(case, ctx):
         T, W, F = idx["types"], idx["wrappers"], idx["functions"]
         type_by_q = {t["scoped_name"]: t for t in db["types"]}
         calls = callables(lib, prom)
+        for _, tc in TMPL_CLASSES:
+            calls += tc
+        calls += TMPL_FREE
+        for t_ in list(type_by_q.values()):
+            if t_["scoped_name"] in ALIAS and not (t_["flags"] & idbfmt.TF["typedef"]) and (t_["destructor"] or ALIAS[t_["scoped_name"]] not in type_by_q):
+                type_by_q[ALIAS[t_["scoped_name"]]] = t_
         # --- build the plan
         slots = []
         native = []
